@@ -11,8 +11,8 @@
   Part A: the mapped segment (atomics, fences, volatile record copy) — `ShmWriter::write`,
           `ShmReader::snapshot`, the version store of `ShmWriter::new`.
   Part B: a private copy of the header (`ShmHeader::read`, `is_valid` and its helpers).
-  Part C: files and system calls (`FdGuard::new`, `MmapGuard::new`, `ShmReader::new`, `ShmWriter::new`,
-          `wipe`, `is_usable_segment`).
+  Part C: the system calls of the open path (`FdGuard::new`, `MmapGuard::new`, `ShmReader::new`).
+  Part D: the file operations of `ShmWriter::new`, `wipe`, `is_usable_segment`, `mmap_segment_at`.
 
   The vocabulary of the events is that of `Model/SeqlockProg.lean` (`SL.Acc`) resp. `Model/Crash.lean`
   (`Crash.Ev`); the maps `accValue` / … are in `Rs/EmbedShm.lean`.
@@ -97,8 +97,7 @@ def path : String → Option Value
   | _ => none
 
 /-- `*p` on a raw pointer to an `AtomicU16`: the cell it points to (`&*self.generation`; `&` is
-    transparent in the core).  A pointer to the record is never dereferenced in these files (it is only
-    read / written through `read_volatile` / `write`): no rule. -/
+    transparent in the core).  (`*p` on the pointer to the record: `derefC`.) -/
 def deref (_ : Inputs) : Value → St → Option Res
   | .ext "ptr:AtomicU16" [.str loc], st => some (.val (refA16 loc) st)
   | _, _ => none
@@ -235,7 +234,12 @@ def methodC (w : Inputs) : Value → String → List Value → St → Option Res
     | _ => none
   | .enumv "addr:segment" [], "cast", [], st => some (.val (addr "segment") st)
   | .enumv "addr:segment" [], "add", [n], st => some (.val (addrPlus n) st)
-  | .ext "addr:segment+" [n], "cast", [], st => some (.val (addrPlus n) st)
+  -- `(segment + n).cast::<ClockErrorBound>()`: the pointer to the record of the mapped segment PROVIDED `n` is
+  -- `size_of::<ShmHeader>()` (the record follows the header; the size comes from the table of the statement)
+  | .ext "addr:segment+" [.int .usize n], "cast", [], st =>
+    match w.sizes.lookup "ShmHeader" with
+    | some k => if n = (k : Int) then some (.val ptrCeb st) else none
+    | none => none
   | _, _, _, _ => none
 
 /-- `(*p).version`, `(*p).generation` with `p` the address of the mapped segment cast to `*const
@@ -246,14 +250,11 @@ def fieldOfC : Value → String → Option Value
   | .enumv "addr:segment" [], "generation" => some (ptrA16 "generation")
   | _, _ => none
 
-/-- `*cursor.cast::<ClockErrorBound>()` with `cursor = segment + n`: the record of the mapped segment,
-    PROVIDED `n` is `size_of::<ShmHeader>()` (the record follows the header; the size comes from the table
-    supplied by the statement) -/
-def derefC (w : Inputs) : Value → St → Option Res
-  | .ext "addr:segment+" [.int .usize n], st =>
-    match w.sizes.lookup "ShmHeader" with
-    | some k => if n = (k : Int) then some (.val ptrCeb st) else none
-    | none => none
+/-- `*p` with `p` the pointer to the record, as the operand of `ptr::addr_of!`: the place of the record, which
+    (places and pointers being the same value, `&`/`*` transparent) is the pointer again.  The record is never
+    READ through `*`: only `read_volatile` / `write` (part A) access it. -/
+def derefC (_ : Inputs) : Value → St → Option Res
+  | .ext "ptr:ClockErrorBound" [.str "ceb"], st => some (.val ptrCeb st)
   | _, _ => none
 
 /-- * `syserror!(origin)` (lib.rs): `Err(ShmError::SyscallError(errno::errno(), origin))`; `errno()` is
@@ -271,6 +272,93 @@ def macroC (w : Inputs) : String → List Value → St → Option Res
   | "ptr::addr_of_mut", [v], st => some (.val v st)
   | _, _, _ => none
 
+/-! ## D. the file operations of `ShmWriter::new` / `wipe` / `is_usable_segment` / `mmap_segment_at` -/
+
+/-- a `&Path` that names a file: its text and the text of its parent directory (`""`: a bare file name) -/
+def pathObj (name parent : String) : Value := .ext "Path" [.str name, .str parent]
+
+/-- an open `std::fs::File` -/
+def fileObj : Value := .ext "File" []
+
+/-- a file-system operation with its arguments and what it returned -/
+def evFs (name : String) (args : List Value) (ret : Value) : Value := .ext "fs" [.str name, .list args, ret]
+
+/-- an input that must be a `Result` (`Ok(..)` / `Err(..)`): the outcome of a fallible operation is the
+    environment's decision -/
+def asResult : Value → Option Value
+  | .enumv "Ok" [v] => some (.enumv "Ok" [v])
+  | .enumv "Err" [e] => some (.enumv "Err" [e])
+  | _ => none
+
+/-- a fallible operation: its result is the next input, logged with the operation -/
+def fsCall (w : Inputs) (name : String) (args : List Value) (st : St) : Option Res :=
+  match asResult (w.inp st.pos) with
+  | some r => some (.val r { st with pos := st.pos + 1, log := st.log ++ [evFs name args r] })
+  | none => none
+
+/-- * `use crate::shm_header::SHM_MAGIC` in writer.rs: the constant of shm_header.rs.  The interpreter resolves
+      a bare name in the file of the function only, so the import is a rule here; the VALUE is the model's
+      `MAGIC0, MAGIC1`, tied to the source by `Properties/C17.lean` (`rust_magic_agrees`) and, for the reader
+      side, by `CodeTieHeader.is_valid_eq` (which evaluates the constant of shm_header.rs itself);
+    * nix `OFlag::O_RDWR`, `MapFlags::MAP_SHARED`: symbolic; `ProtFlags::PROT_READ` / `PROT_WRITE`: the libc bits
+      1 and 2 (`|` on bitflags is the union of the bits). -/
+def pathD : String → Option Value
+  | "SHM_MAGIC" => some (.list [.int .u32 0x414D5A4E, .int .u32 0x43420200])
+  | "OFlag::O_RDWR" => some (.ext "nix" [.str "O_RDWR"])
+  | "MapFlags::MAP_SHARED" => some (.ext "nix" [.str "MAP_SHARED"])
+  | "ProtFlags::PROT_READ" => some (.int .i32 1)
+  | "ProtFlags::PROT_WRITE" => some (.int .i32 2)
+  | _ => none
+
+/-- * `fs::create_dir_all`, `File::create`, `fs::metadata`, `nix::fcntl::open`, `nix::sys::mman::mmap`: fallible
+      operations (`fsCall`);
+    * `OpenOptions::new()`, `Mode::from_bits_truncate(m)`: plain values;
+    * `NonZeroUsize::new(n)`: `Some` iff `n ≠ 0`;
+    * `CString::new(bytes)` on the bytes of a path object: `Ok` (a path object stands for a path without an
+      interior NUL byte). -/
+def callD (w : Inputs) : String → List Value → St → Option Res
+  | "fs::create_dir_all", [p], st => fsCall w "create_dir_all" [p] st
+  | "File::create", [p], st => fsCall w "create" [p] st
+  | "fs::metadata", [p], st => fsCall w "metadata" [p] st
+  | "fcntl::open", [p, flags, mode], st => fsCall w "open" [p, flags, mode] st
+  | "mman::mmap", [_, len, _, _, fd, _], st => fsCall w "mmap" [len, fd] st
+  | "OpenOptions::new", [], st => some (.val (.ext "OpenOptions" []) st)
+  | "Mode::from_bits_truncate", [m], st => some (.val (.ext "Mode" [m]) st)
+  | "NonZeroUsize::new", [.int .usize n], st =>
+    some (.val (if n = 0 then .enumv "None" [] else .enumv "Some" [.int .usize n]) st)
+  | "CString::new", [.ext "bytes" [.ext "Path" [.str name, .str parent]]], st =>
+    some (.val (.enumv "Ok" [.ext "CString" [.str name, .str parent]]) st)
+  | _, _, _ => none
+
+/-- * `Path::parent()`: `Some(parent)`; `Path::to_str()`: `Some(text)` (a path object stands for valid UTF-8);
+      `as_os_str()`, `as_bytes()`: the same path / its bytes; `CString::as_c_str()`: the `&CStr` handed to
+      `ShmReader::new`;
+    * `usize::try_into()` in `wipe` — target `u32` (`let size: u32 = match segsize.try_into()`): `Ok` iff it fits;
+    * byteorder `write_u32::<NativeEndian>(v)`, `write_u16::<NativeEndian>(v)`, std `write_all(buf)`,
+      `stream_position()`, `sync_all()`, `set_len(n)` on a `File`; `OpenOptions::write(b)` / `open(path)`;
+      `Metadata::len()` on the `Metadata` an input provided: fallible operations resp. plain accessors. -/
+def methodD (w : Inputs) : Value → String → List Value → St → Option Res
+  | .ext "Path" [.str _, .str parent], "parent", [], st =>
+    some (.val (.enumv "Some" [.ext "Path" [.str parent, .str ""]]) st)
+  | .ext "Path" [.str name, _], "to_str", [], st => some (.val (.enumv "Some" [.str name]) st)
+  | .ext "Path" [n, p], "as_os_str", [], st => some (.val (.ext "Path" [n, p]) st)
+  | .ext "Path" [n, p], "as_bytes", [], st => some (.val (.ext "bytes" [.ext "Path" [n, p]]) st)
+  | .ext "CString" [_, _], "as_c_str", [], st => some (.val (.ext "CStr" [.str "path"]) st)
+  | .int .usize n, "try_into", [], st =>
+    some (.val (if n ≤ 4294967295 then .enumv "Ok" [.int .u32 n] else .enumv "Err" [.opaque "TryFromIntError"]) st)
+  | .ext "File" [], "write_u32", [.int t v], st =>
+    if (t = .u32 ∨ t = .infer) ∧ 0 ≤ v ∧ v ≤ 4294967295 then fsCall w "write_u32" [.int .u32 v] st else none
+  | .ext "File" [], "write_u16", [.int t v], st =>
+    if (t = .u16 ∨ t = .infer) ∧ 0 ≤ v ∧ v ≤ 65535 then fsCall w "write_u16" [.int .u16 v] st else none
+  | .ext "File" [], "write_all", [.list bs], st => fsCall w "write_all" [.int .usize bs.length] st
+  | .ext "File" [], "stream_position", [], st => fsCall w "stream_position" [] st
+  | .ext "File" [], "sync_all", [], st => fsCall w "sync_all" [] st
+  | .ext "File" [], "set_len", [.int .u64 n], st => fsCall w "set_len" [.int .u64 n] st
+  | .ext "OpenOptions" [], "write", [.bool _], st => some (.val (.ext "OpenOptions" []) st)
+  | .ext "OpenOptions" [], "open", [p], st => fsCall w "open_write" [p] st
+  | .ext "Metadata" [.int .u64 n], "len", [], st => some (.val (.int .u64 n) st)
+  | _, _, _, _ => none
+
 /-! ## the dictionary -/
 
 def method (w : Inputs) (v : Value) (m : String) (args : List Value) (st : St) : Option Res :=
@@ -279,17 +367,26 @@ def method (w : Inputs) (v : Value) (m : String) (args : List Value) (st : St) :
   | none =>
     match methodB v m args st with
     | some r => some r
-    | none => methodC w v m args st
+    | none =>
+      match methodC w v m args st with
+      | some r => some r
+      | none => methodD w v m args st
 
 def call (w : Inputs) (name : String) (args : List Value) (st : St) : Option Res :=
   match callA w name args st with
   | some r => some r
-  | none => callC w name args st
+  | none =>
+    match callC w name args st with
+    | some r => some r
+    | none => callD w name args st
 
 def pathAll (name : String) : Option Value :=
   match path name with
   | some v => some v
-  | none => pathC name
+  | none =>
+    match pathC name with
+    | some v => some v
+    | none => pathD name
 
 def derefAll (w : Inputs) (v : Value) (st : St) : Option Res :=
   match deref w v st with
